@@ -7,15 +7,29 @@
 From VF Require Import C07.Model C07.Check C08.Model C08.Spec C08.Proofs.
 Local Open Scope nat_scope.
 
-Inductive kind := KAQ | KLQ | KCB (cap : nat) | KPQ (rev : bool) | KBH (rev : bool) | KAS | KLS.
-Inductive mstate := MAQ (a : al) | MAS (a : al) | MLQ (s : ll) | MLS (s : ll) | MCB (q : cb) | MH (rev : bool) (a : al).
+Inductive kind := KAQ | KLQ | KCB (cap : nat) | KPQ (sel : cmpsel) | KBH (sel : cmpsel) | KAS | KLS.
+Inductive mstate := MAQ (a : al) | MAS (a : al) | MLQ (s : ll) | MLS (s : ll) | MCB (q : cb) | MH (sel : cmpsel) (a : al).
 Inductive stepx :=
 | SOp (o : qop) (r : res)
 | SRaw (e : list Z) (n : nat)                               (* heap / priority queue: backing array, size *)
-| SRing (v : list Z) (s e : nat) (f : bool) (n : nat).      (* circular buffer: values, start, end, full, size *)
+| SRing (v : list Z) (s e : nat) (f : bool) (n : nat)       (* circular buffer: values, start, end, full, size *)
+(* aliasing judgement (as in C07.Check): every slice returned by Values() read again at the end of the trace must
+   still hold the recorded result of that call *)
+| SKept (now : list (list Z)).
 Record case := { c_kind : kind; c_steps : list stepx }.
 
-Definition le_of (rev : bool) := if rev then le_rev else le_int.
+(* short forms of the most frequent steps (the case files are mostly these) *)
+Definition T := true.
+Definition F := false.
+Definition en_ (v : Z) : stepx := SOp (QEnq v) RUnit.
+Definition dq_ (v : Z) (ok : bool) : stepx := SOp QDeq (RGet v ok).
+Definition pk_ (v : Z) (ok : bool) : stepx := SOp QPeek (RGet v ok).
+Definition vl_ (l : list Z) : stepx := SOp QValues (RList l).
+Definition sz_ (z : Z) : stepx := SOp QSize (RInt z).
+Definition em_ (b : bool) : stepx := SOp QEmpty (RBool b).
+Definition fu_ (b : bool) : stepx := SOp QFull (RBool b).
+
+Definition le_of (sel : cmpsel) := le_sel sel.
 
 Definition m_init (k : kind) : mstate :=
   match k with
@@ -52,18 +66,23 @@ Definition shape_ok (m : mstate) (x : stepx) : bool :=
   | _, _ => true
   end.
 
-Definition check_step (k : kind) (st : mstate * list Z) (x : stepx) : (mstate * list Z) * nat :=
-  let '(m, l) := st in
+Definition cstate : Type := mstate * list Z * list (list Z).
+Definition keep (o : qop) (r : res) (kept : list (list Z)) : list (list Z) :=
+  match o, r with QValues, RList l => l :: kept | _, _ => kept end.
+
+Definition check_step (k : kind) (st : cstate) (x : stepx) : cstate * nat :=
+  let '(m, l, kept) := st in
   match x with
   | SOp o r =>
     let '(m', mo) := m_step m o in
     match spec_step k l o r with
-    | Some l' => ((m', l'), kind_of (res_eqb mo r) true)
-    | None => ((m', l), 2)
+    | Some l' => ((m', l', keep o r kept), kind_of (res_eqb mo r) true)
+    | None => ((m', l, kept), 2)
     end
+  | SKept now => (st, kind_of true (list_eqb zlist_eqb now (rev kept)))
   | _ => (st, kind_of (shape_ok m x) true)
   end.
 
 (* scan_k2 (C07.Check): a kind-1 step does not stop the search for a later kind-2 step *)
-Definition check_case (c : case) : nat := scan_k2 (check_step (c_kind c)) (m_init (c_kind c), []) (c_steps c) 0 0.
+Definition check_case (c : case) : nat := scan_k2 (check_step (c_kind c)) (m_init (c_kind c), [], []) (c_steps c) 0 0.
 Definition mismatches (cs : list case) : list (nat * nat) := find_bad check_case cs.
